@@ -3,6 +3,8 @@
 package clos
 
 import (
+	"strings"
+
 	"github.com/ohler55/slip"
 	"github.com/ohler55/slip/pkg/generic"
 )
@@ -133,6 +135,9 @@ func DefConditionClass(
 	}
 	for i, super := range supers {
 		if sym, ok := super.(slip.Symbol); ok {
+			if strings.EqualFold(string(sym), name) {
+				slip.ErrorPanic(s, depth, "condition %s can not be a parent-type of itself.", name)
+			}
 			cc.supers[i] = sym
 		} else {
 			slip.TypePanic(s, depth, "super", super, "symbol")
